@@ -357,6 +357,138 @@ def table_wide_case(rng, name, rounds, maxn):
         L.append(f'eq {a} {b}'); c = g.fresh(); L.append(f'copy {c} {b}'); L.append(f'eq {c} {a}'); L.append(f'assign {a} {c}'); L.append(f'eq {b} {a}')
     return Case(name, L)
 
+
+# ---------------------------------------------------------------------------------------------------------------- nearly equal values
+def fadd_ulps(bits, k):
+    """the double k steps up (k < 0: down) the number line from `bits` (non-NaN); None when that leaves the doubles"""
+    key = -(bits & 0x7fffffffffffffff) if bits >> 63 else bits
+    key += k
+    if abs(key) > 0x7ff0000000000000: return None
+    if key == 0: return 0x8000000000000000 if (bits >> 63 and k < 0) or (k > 0 and bits >> 63) else 0
+    return (1 << 63) | -key if key < 0 else key
+
+ARITH_PAIRS = [(0.1 + 0.2, 0.3), (1.0 / 3.0 * 3.0, 1.0), (2.0 ** 0.5 * 2.0 ** 0.5, 2.0), (1e16 + 1.0, 1e16), (0.1 * 3.0, 0.3), (1.1 * 1.1, 1.21),
+               (100.0 * 1.1, 110.0), (4.35 * 100.0, 435.0), (1.0 - 0.9, 0.1), (0.7 + 0.1, 0.8), (1e-320 * 3.0, 3e-320), (1.7976931348623157e308 * 0.5 * 2.0, 1.7976931348623157e308),
+               (9007199254740993.0, 9007199254740992.0), (3.0 * 1.1, 3.3), (49.0 * (1.0 / 49.0), 1.0)]
+
+def near_float_bases(rng):
+    r = rng.random()
+    if r < 0.15: return rng.choice([0x0000000000000000, 0x8000000000000000, 0x0000000000000001, 0x8000000000000001, 0x0000000000000002,
+                                    0x000fffffffffffff, 0x0010000000000000, 0x0010000000000001, 0x800fffffffffffff, 0x8010000000000000])
+    if r < 0.30: return rng.choice([0x7fefffffffffffff, 0xffefffffffffffff, 0x7feffffffffffffe, 0x7ff0000000000000, 0xfff0000000000000, 0x7fe0000000000000])
+    if r < 0.50:      # a power of two (also negative): the spacing of the doubles changes there
+        return (rng.randrange(0, 2) << 63) | (rng.choice([1, 2, 3, 0x3fe, 0x3ff, 0x400, 0x401, 0x433, 0x434, 0x7fd, 0x7fe] + [rng.randrange(1, 0x7ff)]) << 52)
+    if r < 0.65: return fbits(rng.choice(ARITH_PAIRS)[rng.randrange(2)])
+    if r < 0.80: return fbits(rng.randrange(-1000, 1000) / rng.choice([1.0, 3.0, 7.0, 10.0, 1000.0]))
+    if r < 0.90: return rng.getrandbits(52) | (rng.randrange(0, 2) << 63)           # subnormal
+    while True:
+        b = rng.getrandbits(64)
+        if (b & 0x7fffffffffffffff) <= 0x7ff0000000000000: return b
+
+def near_float_pair(rng):
+    if rng.random() < 0.2:
+        x, y = rng.choice(ARITH_PAIRS); return fbits(x), fbits(y)
+    a = near_float_bases(rng)
+    while True:
+        k = rng.choice([1, -1, 1, -1, 2, -2, 3, -3, 4, -4, 0])
+        if k == 0:
+            if (a << 1) & (2**64 - 1) == 0: return a, a ^ (1 << 63)      # the other zero
+            if rng.random() < 0.5: return a, a ^ (1 << 63)               # the negation: same magnitude bits
+            continue
+        b = fadd_ulps(a, k)
+        if b is not None: return a, b
+
+def wrap64(v): return (v + 2**63) % 2**64 - 2**63
+
+def near_int_pair(rng):
+    a = rng.choice(INT_EDGES + [rng.randrange(-1000, 1000), rng.randrange(I64MIN, I64MAX + 1), rng.randrange(0, 6) + LCM * rng.randrange(0, 8)])
+    d = rng.choice([1, -1, 2**31, -2**31, 2**32, -2**32, 2**63, 2**32 + 1, 2**32 - 1, 2**64 - 1, 5, 11, 23, 53])
+    return a, wrap64(a + d)
+
+def near_bytes_pair(rng, n=None, nonzero=True):
+    """two byte strings that differ in the last byte only (by one, in case, across 0x7f/0x80, 0x01 against 0xff), by one
+    trailing byte (0x01: the byte next to NUL; 0xff), or in one late byte"""
+    n = rng.choice([0, 1, 2, 3, 7, 8, 9, 15, 16, 17, 24]) if n is None else n
+    lo = 1 if nonzero else 0
+    a = bytearray(rng.choice(b'abcxyzAB') if rng.random() < 0.6 else rng.randrange(lo, 256) for _ in range(n))
+    b = bytearray(a); r = rng.random()
+    if r < 0.25 or n == 0: pass
+    if n and r < 0.2: b[-1] = a[-1] + 1 if a[-1] < 255 else a[-1] - 1
+    elif n and r < 0.35: a[-1] = rng.choice(b'azAZmq'); b[-1] = a[-1] ^ 0x20
+    elif n and r < 0.5: a[-1], b[-1] = rng.choice([(0x7f, 0x80), (0x01, 0xff), (0x7f, 0xff), (0x80, 0xff), (0x01, 0x02), (0xfe, 0xff)])
+    elif n and r < 0.6: i = rng.randrange(n); b[i] = a[i] ^ (1 << rng.randrange(8)); b[i] = b[i] or 1 if nonzero else b[i]
+    elif nonzero and r < 0.8: b.append(rng.choice([0x01, 0x01, 0xff, 0x20, 0x80]))            # one trailing byte more
+    elif nonzero and n and r < 0.9: b.pop()
+    else:
+        if n: i = rng.randrange(n); b[i] = (a[i] + 0x80) % 256; b[i] = b[i] or (1 if nonzero else 0)
+        else: b.append(1)
+    if not nonzero and len(b) != len(a): b = bytearray(a); b[-1] ^= 1
+    return bytes(a), bytes(b)
+
+def near_pair(rng, ty):
+    """(spec a, spec b): two values of type `ty` that are neighbours"""
+    if ty == 'F': a, b = near_float_pair(rng); return f'f:{a:016x}', f'f:{b:016x}'
+    if ty == 'I': a, b = near_int_pair(rng); return f'i:{a}', f'i:{b}'
+    if ty == 'S': a, b = near_bytes_pair(rng); return 's:' + a.hex(), 's:' + b.hex()
+    k = int(ty); a, b = near_bytes_pair(rng, PSIZE[k], nonzero=False); return f'p{k}:' + a.hex(), f'p{k}:' + b.hex()
+
+def near_case(rng, name, rounds):
+    """nearly equal scalars — doubles 1..4 ulp apart at every magnitude, the two zeros, results of arithmetic against the literal
+    (0.1 + 0.2 against 0.3); Ints 1, 2^31, 2^32, 2^63 apart; Strings and structs differing in the last byte, in case, by one
+    trailing byte, across 0x7f/0x80 — compared as scalars in every allocation class, as elements of Array / List / Tuple at the
+    same position, and as keys of a Table and a Tree: a key eq to a stored one is found and overwrites, any other key is absent,
+    makes a second entry and can be removed again without touching the first. Self-assignment of every kind."""
+    g = G(rng); L = []
+    for _ in range(rounds):
+        ty = rng.choice('FFFFIISS' + '2' + rng.choice(RAW_ANY))
+        sa, sb = near_pair(rng, ty)
+        # scalars
+        ia = []
+        for cls in rng.sample('SHE', 2): i = g.fresh(); L.append(f'new {i} {cls} {sa}'); ia.append(i)
+        ib = g.fresh(); L.append(f'new {ib} {rng.choice("SHE")} {sb}')
+        ic = g.fresh(); L.append(f'new {ic} {rng.choice("SH")} {sa}')
+        L += [f'eq {ia[0]} {ib}', f'eq {ib} {ia[1]}', f'eq {ia[0]} {ic}', f'eq {ia[0]} {ia[0]}']
+        if rng.random() < 0.5:
+            c = g.fresh(); L += [f'copy {c} {ib}', f'eq {c} {ia[0]}', f'eq {c} {ib}']
+            if ty != 'S': L += [f'assign {c} {c}']
+            L += [f'assign {c} {ia[1]}', f'eq {c} {ib}', f'swap {c} {ib}', f'eq {c} {ib}', f'swap {c} {ib}']
+        if ty != 'S' and rng.random() < 0.3: L.append(f'assign {ia[0]} {ia[0]}')
+        # the same pair as the elements at one position of two sequences
+        n = rng.randrange(1, 6); pos = rng.randrange(n)
+        base = [g.spec(ty) for _ in range(n)]
+        xa = list(base); xa[pos] = sa; xb = list(base); xb[pos] = sb
+        ka, kb, kc = (rng.choice(['arr', 'lst', 'tup']) for _ in range(3))
+        ca = build_seq(g, L, ka, ty, xa, rng.choice(['ctor', 'push', 'front']))
+        cb = build_seq(g, L, kb, ty, xb, rng.choice(['ctor', 'push', 'junk']))
+        cc = build_seq(g, L, kc, ty, xa, rng.choice(['ctor', 'trunc']))
+        L += [f'eq {ca} {cb}', f'eq {cb} {ca}', f'eq {ca} {cc}', f'heq {ca} {cb}', f'has {ca} {sa}', f'has {ca} {sb}', f'has {cb} {sa}', f'has {cb} {sb}']
+        if ka != 'tup': L += [f'assign {ca} {ca}', f'eq {ca} {cc}']
+        else: L += [f'assign {ca} {ca}']
+        if kb != 'tup' and rng.random() < 0.5: L += [f'rem {cb} {sa}', f'H {cb}']
+        # the same pair as keys
+        if ty in 'IFS' + RAW_ANY:
+            for kind in ('tab', 'tre'):
+                if kind == 'tre' and ty in RAW_ANY and ty not in RAW_TREE: continue
+                vty = rng.choice('IFS' + (RAW_TREE if kind == 'tre' else RAW_ANY)) if rng.random() < 0.5 else 'I'
+                others = [k for k in {near_pair(rng, ty)[0] for _ in range(rng.randrange(0, 4))} if k not in (sa, sb)]
+                if ty == 'F':      # no two eq keys among the others (the two zeros are one key)
+                    seen = set(); keep = []
+                    for k in others:
+                        m = int(k[2:], 16); m = 0 if m << 1 & (2**64 - 1) == 0 else m
+                        z = lambda s_: 0 if int(s_[2:], 16) << 1 & (2**64 - 1) == 0 else int(s_[2:], 16)
+                        if m not in seen and m != z(sa) and m != z(sb): seen.add(m); keep.append(k)
+                    others = keep
+                es = [(k, g.spec(vty)) for k in others]
+                va, vb, vc = g.spec(vty), g.spec(vty), g.spec(vty)
+                ins = es + [(sa, va)]; rng.shuffle(ins)
+                m = build_map(g, L, kind, ty, vty, ins, rng.choice(['ctor', 'set', 'shuffle']), allow_resize=False)
+                L += [f'has {m} {sa}', f'has {m} {sb}', f'set {m} {sb} {vb}', f'has {m} {sa}', f'has {m} {sb}', f'set {m} {sa} {vc}', f'has {m} {sa}']
+                ref = build_map(g, L, kind, ty, vty, es + [(sa, vc), (sb, vb)], rng.choice(['ctor', 'shuffle']), allow_resize=False)
+                L += [f'heq {m} {ref}'] + ([f'eq {m} {ref}'] if kind == 'tre' else [])
+                L += [f'assign {m} {m}', f'heq {m} {ref}', f'rem {m} {sb}', f'has {m} {sb}', f'has {m} {sa}', f'rem {m} {sb}']
+                c = g.fresh(); L += [f'hcopy {c} {m}', f'has {c} {sa}', f'has {c} {sb}']
+    return Case(name, [l for l in L if l])
+
 def fuzz_case(rng, name, nops):
     """random op sequences over a pool (invalid combinations are refused alike by both sides)"""
     g = G(rng); L = []
@@ -391,6 +523,10 @@ def fuzz_case(rng, name, nops):
                 sp = g.spec(ety)
                 L.append(rng.choice([f'push {c} {sp}', f'push {c} {sp}', f'pop {c}', f'popat {c} {rng.randrange(-3, 6)}', f'pushat {c} {rng.randrange(-3, 6)} {sp}',
                                      f'set {c} {rng.randrange(-3, 6)} {sp}', f'rem {c} {sp}', f'resize {c} {rng.randrange(0, 8)}', f'clear {c}']))
+        elif r < 0.59:
+            c = pick(['arr', 'lst', 'tre'])
+            if c is None: continue
+            kind, ety, n, cls = pool[c]; L.append(f'has {c} {g.spec(ety[0])}')
         elif r < 0.70:
             a, b = pick(), pick(); L.append(f'eq {a} {b}')
         elif r < 0.80:
@@ -432,7 +568,9 @@ class C10(Spec):
                   '(a narrowed relocation is refuted on a witness). The model is tied to the code by the translator (constants, steps, '
                   'folds, widths) and by op files run on both.')
     level_note = ('Trusted: Lean kernel; the regex translator g_hash.py; harness/driver comparison (testing); little-endian 8-byte load; the bit-level model '
-                  'of Float_Cmp (sign of the IEEE difference, no flush-to-zero) which is tested, not proved. Not covered: NaN (eq(NaN,x) holds for every x — '
+                  'of Float_Cmp: SubSign (the sign of a - b is the sign of the real difference, no flush-to-zero) is proved for the exact arithmetic sfOps and tested for '
+                  'the machine (the driver runs the extracted Float_Cmp on Lean Float and on sfOps for every pair of doubles an op file compares and '
+                  'compares sub/mul/fmax/lt results). Not covered: NaN (eq(NaN,x) holds for every x — '
                   'reported as a known-finding candidate), nested containers in the executable model (the lifting theorems are polymorphic), Table eq '
                   'outside layout-independent tables (known finding). The Tree of this engine is a search tree of entries without colours: the '
                   'rebalancing (Tree_Set_Fix / Tree_Rem_Fix: relinking and recolouring only, no payload move — checked by the translator) is '
@@ -449,7 +587,14 @@ class C10(Spec):
             'structs of 1, 4, 8, 12, 16, 24, 40 bytes (Tree: multiples of 8 only), narrow key with wide value, wide key with narrow value; a Tree filled '
             'in random order and emptied key by key (removals of leaves, one-child and two-children nodes: the in-order neighbour is relocated), '
             'compared after each removal with a directly built Tree, copied, assigned; a Table of such types through insertions into probe clusters, '
-            'removals with back-shift, growing/shrinking rehashes and reserves, hashed against directly built Tables/Trees and its copy; Arrays/Lists of '
+            'removals with back-shift, growing/shrinking rehashes and reserves, hashed against directly built Tables/Trees and its copy; '
+            '(g) nearly equal values: doubles 1..4 ulp apart at every magnitude (subnormal, around every power of two, next to DBL_MAX and the infinities), '
+            'the two zeros, a value and its negation, results of arithmetic against the literal (0.1+0.2 vs 0.3, 1/3*3 vs 1, 1e16+1 vs 1e16), Ints 1, 2^31, '
+            '2^32, 2^63 apart, Strings and structs differing in the last byte, in case, across 0x7f/0x80, by one trailing byte — each pair compared as scalars '
+            'in every allocation class (oracle: eq holds exactly for the same value, and then the hashes agree), as elements at one position of '
+            'Array/List/Tuple, and as keys of a Table and a Tree (Float keys included): has = mem + get before and after set/rem of the neighbour — a key eq '
+            'to a stored one is found and overwritten, a neighbour is absent, makes a second entry and is removed alone; assign(x, x) on every kind '
+            'but String (oracle: dump and hash unchanged); Arrays/Lists of '
             'such elements through removals and insertions in the middle. Every op prints the value (Table: slot array) and the hash, compared with the Lean model '
             '(which performs every element move with the width extracted from the source); the harness counts two-children removals and shifting '
             'removals on wide entries (I lines). '
@@ -458,14 +603,14 @@ class C10(Spec):
                     'the hash/cmp/assign/swap/copy defaults, Table_Primes; the size/offset expressions of Tree_Alloc/Key/Val/Rem, Table_Step/Key/Val/'
                     'Set_Move/Rehash/Rem, Array_Step/Item/Pop_At/Push_At)',
                     'harness/h_hash.c + lean/Driver/Hash.lean (correspondence is testing)',
-                    'Cello.Hash.floatCmp: bit-level model of `c = a - b; sign(c)` for doubles (tested on boundary values, not proved)',
+                    'SubSign for the machine\'s doubles (sign of a - b = sign of the real difference): proved for the exact IEEE-754 model sfOps, which the driver tests against Lean Float on every compared pair',
                     'little-endian memcpy of 8 bytes into a uint64_t (x86-64)')
     assumptions = ('Float values are not NaN (eq(NaN, x) is true for every x: candidate known finding KF-C10-float-nan)',
                    'Table eq/copy-eq only for tables whose slot order is determined by their contents (known finding KF-C10-table-cmp, F06)',
                    'containers hold scalar elements (Int, Float, String, plain structs of 1..40 bytes); Tuples hold distinct scalar objects (a repeated object in a Tuple breaks Tuple iteration: other finding)',
                    'Tree key and value types have sizes that are multiples of 8 (Tree_Alloc does not round: known finding KF-C19-tree-misaligned-header)',
                    'copy/assign of a Table of arbitrary layout is observed through content and hashes only (hcopy/hassign): its cmp is KF-C10-table-cmp territory',
-                   'assign(x, x) on the same object and growth of a List by resize are not exercised',
+                   'assign(s, s) on a String (String_Assign reallocates the buffer and then strcpy-s from the old pointer: defined only if the block stays) and growth of a List by resize are not exercised',
                    'strings contain no NUL; hash values compared on a little-endian 64-bit platform')
     def cases(self, rng, tier, boost=1):
         quick = tier == 'quick'
@@ -475,6 +620,7 @@ class C10(Spec):
         for i in range((40 if quick else 130) * boost): cs.append(map_case(rng, f'map{i}', 8 if quick else 12, 12 if quick else (30 if i % 4 else 110)))
         for i in range((30 if quick else 100) * boost): cs.append(tree_rem_case(rng, f'treerem{i}', 6 if quick else 10, 16 if quick else (40 if i % 4 else 120)))
         for i in range((24 if quick else 80) * boost): cs.append(table_wide_case(rng, f'tabwide{i}', 5 if quick else 8, 14 if quick else (30 if i % 4 else 120)))
+        for i in range((24 if quick else 90) * boost): cs.append(near_case(rng, f'near{i}', 14 if quick else 30))
         for i in range((30 if quick else 100) * boost): cs.append(fuzz_case(rng, f'fuzz{i}', 300 if quick else 800))
         return cs
     def nontrivial_items(self, case, c_out, m_out):
@@ -493,6 +639,10 @@ class C10(Spec):
             kv = dict(x.split('=') for x in l[2:].split() if '=' in x)
             if int(kv.get('tree_not_descending', 0)) or int(kv.get('table_keys_not_distinct', 0)) or int(kv.get('unsized_states', 0)):
                 return f'invariant of the model violated on this input: {l}'
+            if int(kv.get('float_src_ne_model', 0)):
+                return f'Float_Cmp as extracted, run on the machine\'s doubles, departs from the bit-level floatCmp of the model (SubSign fails for the machine, or the source no longer compares by the sign of the difference): {l}'
+            if int(kv.get('float_sf_ne_hw', 0)):
+                return f'the exact IEEE-754 arithmetic sfOps of the model disagrees with the machine\'s doubles: {l}'
         return None
     def stats(self, case, c_out, m_out, acc):
         for l in core.lines_with('O ', c_out):
